@@ -89,16 +89,21 @@ def build(case):
     eff = {}
     idx = 0
     prev_texts = []
+    off, fac = case.get("scale") or (0.0, 1.0)       # late and finely spaced times: offset + factor * time
     for r, row in enumerate(rows):
         texts = []
         for gi, (kind, name, delay) in enumerate(row["groups"]):
             # a twin row repeats the row before it character by character
-            texts.append(prev_texts[gi] if row.get("twin") else group_text(kind, name, idx, delay or None))
+            d_text = None if not delay else repr(round(delay * fac, 9))
+            texts.append(prev_texts[gi] if row.get("twin") else group_text(kind, name, idx, d_text))
             eff.setdefault(round(row["onset"] + (delay or 0), 6), []).append((r, len(texts), kind, name))
             idx += 1
         prev_texts = texts
-        onsets.append(repr(float(row["onset"])))
-        heds.append("Zzunknowntag" if row.get("noise") else (", ".join(texts) if texts else "n/a"))
+        onsets.append(repr(round(off + float(row["onset"]) * fac, 9)))
+        body = ", ".join(texts) if texts else "n/a"
+        if row.get("warn") and texts:
+            body += f", Red/Zzwarn{r}"               # draws a warning (extended tag), no error
+        heds.append("Zzunknowntag" if row.get("noise") else body)
     times = sorted(eff)
     tps = [[(k, n) for (_, _, k, n) in sorted(eff[t])] for t in times]
     row_tp = {}
@@ -236,7 +241,12 @@ def random_case(rng):
             if t > 0 and all(abs(t - u) > 1e-6 for u in taken):
                 allrows.append(dict(onset=t, groups=[], noise=True))
         allrows = sorted(allrows, key=lambda r: r["onset"])
+    for r0 in allrows:
+        if not r0.get("noise") and any(not g[2] for g in r0["groups"]) and rng.random() < 0.15:
+            r0["warn"] = True                          # (only where a marker stays in the row: the row is a time point)
     case = dict(rows=allrows, layout="random", history=[list(h) for h in history])
+    if rng.random() < 0.15:
+        case["scale"] = [rng.choice([3600.0, 100000.0]), rng.choice([0.001, 0.0005])]
     if len({r["onset"] for r in allrows}) == len(allrows) and len(allrows) >= 2 and rng.random() < 0.35:
         order = list(range(len(allrows)))
         rng.shuffle(order)
